@@ -109,19 +109,39 @@ def u_mp_iter(ctx, seq, unpack):
         return
     src = froms[0]
     # the yielded stream must be  job(items[idx(t)])  for t < len  with idx a bijection on [0, n)
-    if isinstance(src, SMapped):
-        job, seq_, perm = src.fn, src.inner, None
-        ctx.check(f"{name}/post:no_pool_when_mapping_in_process", len(mp.pools) == 0)
-    elif isinstance(src, Permuted):
+    from pyvc.builtins_shim import is_symbolic_iterable, has_symbolic_len, item_of
+
+    def same(a, b):
+        if isinstance(a, (tuple, list)) and isinstance(b, (tuple, list)):
+            return len(a) == len(b) and all(same(x, y) for x, y in zip(a, b))
+        if isinstance(a, dict) and isinstance(b, dict):
+            return set(a) == set(b) and all(same(a[k], b[k]) for k in a)
+        if isinstance(a, (SNum, SBool)) or isinstance(b, (SNum, SBool)):
+            return bool(ctx.probe(SBool(to_term(a) == to_term(b))))
+        return a == b
+    if isinstance(src, Permuted):
         ok = len(mp.imap_calls) == 1
         job, seq_, perm = (mp.imap_calls[0][0], mp.imap_calls[0][1], src) if ok else (None, None, src)
         ctx.check(f"{name}/post:pool_size_is_num_processes", len(mp.pools) == 1 and mp.pools[0] is nproc)
         ctx.check(f"{name}/post:pool_closed_after_use", mp.entered == 1 and mp.exited == 1)
+    elif is_symbolic_iterable(src) and has_symbolic_len(src):
+        # an in-process stream, however it is written (map, generator expression, relay loop): item t is the job applied to item t
+        ctx.check(f"{name}/post:no_pool_when_mapping_in_process", len(mp.pools) == 0)
+        ctx.check(f"{name}/post:sequential_when_one_process", bool(seq))
+        m = vc_len(src)
+        ctx.check(f"{name}/post:as_many_results_as_items", m == n)
+        t = ctx.fresh_int("t", lo=0)
+        ctx.assume(t.t < to_term(n), "post:arbitrary position")
+        it = items.item(t)
+        want = func(*it, "A", k=2) if unpack else func(it, "A", k=2)
+        got = item_of(src, t)
+        ctx.check(f"{name}/post:result_t_is_the_job_bound_to_the_arguments_applied_to_item_t", same(got, want),
+                  detail=f"result {got!r} instead of {want!r}: in order, every item exactly once")
+        return
     else:
         fail(ctx, f"{name}/post:stream_is_a_map_over_the_items", detail=f"unexpected stream {type(src).__name__}")
         return
-    if seq:
-        ctx.check(f"{name}/post:sequential_when_one_process", isinstance(src, SMapped))
+    ctx.check(f"{name}/post:pool_only_with_more_than_one_process", not seq)
     ctx.check(f"{name}/post:job_binds_func_and_arguments",
               isinstance(job, PAR.ParallelJob) and job.func is func and job.func_args == ("A",) and job.func_kwargs == {"k": 2}
               and job.unpack == unpack)
